@@ -6,7 +6,7 @@
   indices), the action paints (`guarded_fold`, `fm_updown`, `fm_mapping`, `fm_channel`, `paints_total`: the paints under
   nested ifs, read as guarded paints, are the model's `actionPaints`), the keyboard mapping (`class_eq`: Go's truncating
   `x % 12` on a non-negative pitch is the model's pitch class), the MIDI-input passes and the device's own notes
-  (`base_cast`: `note - byte(offset)` in uint8 is `baseOf`).
+  (`note_step`: `base := int(note) - offset`, skipped unless 0 ≤ base ≤ 127, is `baseOk` / `baseOf`).
 -/
 import Hidi.Gen.LedFrame
 import HidiProofs.LedLemmas
@@ -113,8 +113,36 @@ theorem fm_channel (ch : Nat) :
     simp [fm, c0, c15, h0, h15]
 
 
-theorem base_cast (n : Nat) (off : Int) : (wrapU8 ((n : Int) - wrapU8 off)).toNat = baseOf n off := by
-  unfold baseOf u8 wrapU8; omega
+/-- one tracked note in the source (`base := int(note) - offset; if base < 0 || base > 127 { continue }; … [byte(base)]`)
+    and in the model (`baseOk`, `baseOf`) -/
+theorem note_step (n : Nat) (off : Int) (P : Nat → Frame) (f : Frame) :
+    (if (decide (wrapInt (wrapInt (n : Int) - off) < 0) || decide (wrapInt (wrapInt (n : Int) - off) > 127)) = true then f
+      else P (wrapU8 (wrapInt (wrapInt (n : Int) - off))).toNat) =
+    (if baseOk n off = true then P (baseOf n off) else f) := by
+  unfold baseOk baseOf baseI wrapInt wrapU8
+  by_cases h1 : (n : Int) - off < 0
+  · have h0 : ¬ (0 ≤ (n : Int) - off) := by omega
+    rw [decide_eq_true h1, Bool.true_or, decide_eq_false h0, Bool.false_and]
+    rfl
+  · by_cases h2 : (n : Int) - off > 127
+    · have h0 : ¬ ((n : Int) - off ≤ 127) := by omega
+      rw [decide_eq_true h2, Bool.or_true, decide_eq_false h0, Bool.and_false]
+      rfl
+    · have h3 : 0 ≤ (n : Int) - off := by omega
+      have h4 : (n : Int) - off ≤ 127 := by omega
+      have h5 : (((n : Int) - off) % 256).toNat = ((n : Int) - off).toNat := by omega
+      rw [decide_eq_false h1, decide_eq_false h2, decide_eq_true h3, decide_eq_true h4, h5]
+      rfl
+
+theorem own_fold (d : Dev) (off : Int) (F : Frame → Nat → Frame) (a : Frame) :
+    (ownOn d off).foldl (fun f p => F f (baseOf p.2.1 off)) a =
+      d.noteTr.foldl (fun f p => if baseOk p.2.1 off = true then F f (baseOf p.2.1 off) else f) a := by
+  unfold ownOn; rw [List.foldl_filter]
+
+theorem ext_fold (d : Dev) (ch : Nat) (off : Int) (F : Frame → Nat → Frame) (a : Frame) :
+    (extOn d ch off).foldl (fun f p => F f (baseOf p.2 off)) a =
+      (d.ext.filter (fun p => p.1 = ch)).foldl (fun f p => if baseOk p.2 off = true then F f (baseOf p.2 off) else f) a := by
+  unfold extOn; rw [List.foldl_filter]
 
 theorem off_eq (d : Dev) : wrapInt (wrapInt (toG d).semitone + wrapInt (wrapInt (toG d).octave * 12)) = d.semitone + d.octave * 12 := rfl
 
@@ -192,6 +220,15 @@ theorem ledFrame_eq (d : Dev) (devName : String) (leds : List String) (sc : RGB 
     rw [hp]
     unfold frameExt frameBase framePre
     simp only
+    rw [own_fold d _ (fun f n => paintNote (indexMap leds) m f n d.cfg.colors.active),
+      ext_fold d d.channel _ (fun f n => paintNote (indexMap leds) m f n d.cfg.colors.activeExternal)]
+    have hext16 : ∀ (a : Frame) (ch : Nat),
+        (extOn d ch (d.semitone + d.octave * 12)).foldl
+          (fun f p => paintNote (indexMap leds) m f (baseOf p.2 (d.semitone + d.octave * 12)) (chanColor ch)) a =
+        (d.ext.filter (fun p => p.1 = ch)).foldl (fun f p => if baseOk p.2 (d.semitone + d.octave * 12) = true then
+          paintNote (indexMap leds) m f (baseOf p.2 (d.semitone + d.octave * 12)) (chanColor ch) else f) a :=
+      fun a ch => ext_fold d ch _ (fun f n => paintNote (indexMap leds) m f n (chanColor ch)) a
+    simp only [hext16]
     have fc : ∀ {α : Type} (F F' : Frame → α → Frame) (a a' : Frame) (l l' : List α),
         F = F' → a = a' → l = l' → List.foldl F a l = List.foldl F' a' l' := by
       intro α F F' a a' l l' h1 h2 h3; rw [h1, h2, h3]
@@ -209,10 +246,12 @@ theorem ledFrame_eq (d : Dev) (devName : String) (leds : List String) (sc : RGB 
     apply fc
     · -- the device's own notes
       funext f p
-      rw [hoff, base_cast]
+      rw [hoff]
+      exact note_step p.2.1 _ (fun n => paintNote (indexMap leds) m f n d.cfg.colors.active) f
     · apply fc
       · funext f p
-        rw [hoff, base_cast]
+        rw [hoff]
+        exact note_step p.2 _ (fun n => paintNote (indexMap leds) m f n d.cfg.colors.activeExternal) f
       · apply fcm
         · intro f ch hch
           have hlt : ch < 16 := by
@@ -221,7 +260,8 @@ theorem ledFrame_eq (d : Dev) (devName : String) (leds : List String) (sc : RGB 
           have hcc : (wrapU8 (ch : Int)).toNat = ch := by unfold wrapU8; omega
           apply fc
           · funext f p
-            rw [hoff, base_cast, hcc]
+            rw [hoff, hcc]
+            exact note_step p.2 _ (fun n => paintNote (indexMap leds) m f n (chanColor ch)) f
           · rfl
           · rfl
         · apply fc
